@@ -48,6 +48,11 @@ pub fn rust_ty(t: &Ty, decls: &mut Vec<String>) -> String {
                 }
                 KeyTy::I64 => "i64".into(),
                 KeyTy::SpannedI64 => "toml::Spanned<i64>".into(),
+                KeyTy::SpannedKey(k) => {
+                    let inner = rust_ty(&Ty::Map((**k).clone(), Box::new(Ty::Bool)), decls);
+                    let inner = inner.trim_start_matches("BTreeMap<").rsplit_once(", ").map(|x| x.0.to_string()).unwrap_or_default();
+                    format!("toml::Spanned<{inner}>")
+                }
                 KeyTy::Bool => "bool".into(),
                 KeyTy::Char => "char".into(),
             };
